@@ -362,6 +362,17 @@ func (e *endpoint) handleListenSegment(ctx *listenContext, s *segment) {
 				n.tsOffset = 0
 				e.deliverAccepted(n)
 			}
+		} else {
+			// An ACK that does not complete a handshake started here
+			// acknowledges something this listener never sent.
+			replyWithReset(s)
+		}
+	default:
+		// Any other segment carrying an acknowledgement (e.g. a SYN-ACK or
+		// data for a connection that no longer exists) is bad in the
+		// LISTEN state and is answered by a reset; resets are never answered.
+		if s.flagIsSet(flagAck) && !s.flagIsSet(flagRst) {
+			replyWithReset(s)
 		}
 	}
 }
